@@ -398,4 +398,29 @@ CHECKS["C08"] = dict(
     thorough=dict(workers=16, cases=300, maxsize=15),
 )
 
+CHECKS["C20"] = dict(
+    harness="C20_relay", sources=["props/C20_relay.cc", "shim/shim.c", "pki/pki.cc"], variant="asan",
+    prebuild=[("VF_RELAY_EXE", "build_relay")],
+    level="exploration", engine="rapidcheck plans + the real xcmrelay built from the tree, run as a child process between harness endpoints",
+    technique="model-based property testing at process level: generated bidirectional traffic, bursts up to "
+              "back-pressure, pauses and closes through the real relay; end-to-end ledger oracle, close "
+              "ordering and bounded-time liveness",
+    level_text="The relay (tools/xcmrelay built from the working tree, linked with the tree's libxcm) runs between "
+               "1-3 harness client connections and a harness server, for every pair of messaging transports "
+               "(ux, uxf, tcp, tls, utls x same) and of byte-stream transports (btcp, btls x same). Steps: "
+               "sends of 1..65535 bytes (up to 200 kB on byte streams) in both directions, bursts of up to 400 "
+               "large sends until the sender is refused while the other side does not read, receives, finishes, "
+               "closes (after the closer's own socket has finished). Everything successfully sent must arrive "
+               "unmodified, in order, once; a close is seen only after it; the relay must stay alive and move "
+               "data again once the paused side reads (10 s without progress = stall). Sampled.",
+    level_note="The relay's own sockets are in another process and are not fault-injected; back-pressure is produced "
+               "by volume (kernel buffers). Liveness is a 10 s bound; the driver re-confirms three times.",
+    rule=("case = transport pair x 1-3 connections x up to 60 steps. Non-trivial = traffic in both directions on a "
+          "connection AND (a burst that ended in back-pressure, or a close issued while the closer's data was "
+          "still in flight)."),
+    assumptions=["a side that closes first lets its own socket finish (xcm_finish == 0), as C03 requires of senders"],
+    quick=dict(workers=16, cases=60, maxsize=60),
+    thorough=dict(workers=16, cases=3000, maxsize=60),
+)
+
 NOT_APPLICABLE = []
